@@ -86,9 +86,11 @@ def check_fiber(rec, part, depth, n, spec, owned, default=0, ranges=None, active
                 c3 = dict(c2, start_pos=sp)
                 ok, got = guarded(rec, part, c3, lambda: pairs(f.iterRange(lo, hi, start_pos=sp)))
                 if ok and same(got, want, "a valid start_pos never changes what iterRange yields", c3) and got:
-                    if f.coords[f.getSavedPos()] != got[-1][0]:
-                        rec.violation(part, "saved position does not address the last element yielded", c3,
-                                      "after a shortcut traversal the saved position addresses the last element yielded", f.getSavedPos(), None)
+                    sp2 = f.getSavedPos()
+                    if not (0 <= sp2 < len(f.coords) and f.coords[sp2] <= got[-1][0]):
+                        # (the exact position is the library's business; what later shortcuts need is that it is not past the last element yielded)
+                        rec.violation(part, "saved position is past the last element yielded", c3,
+                                      "after a shortcut traversal the saved position is a valid shortcut for anything at or after the last element yielded", sp2, None)
     # active range and shape iteration (no reference creation): tree untouched
     for act in ([None] + [(a, b) for a in range(n) for b in range(a, n + 1)] if actives is None else actives):
         t2, g = mk(spec, depth, n, owned, active=act, default=default)
